@@ -38,8 +38,13 @@ MANIFEST_ENTRY = {
         "stored segment whose start is nearest the Period's source offset (mps_number_maps[_no_tfdt], "
         "mps_start_nearest), decode times start at the file's first decode time and are gapless "
         "(mps_decode_zero, mps_decode_gapless), anything past the last stored segment is 404 and no $Number$ "
-        "request crashes (mps_beyond_end_404, mps_number_never_crashes), $Time$=t serves the segment nearest "
-        "offset+t with decode time t (mps_time_maps); every number the Period duration admits is served iff "
+        "request crashes (mps_beyond_end_404, mps_number_never_crashes); with timeline=1 the SegmentTimeline "
+        "of a Period lists exactly the source segments i0.. that start inside the Period, from t=0, gapless, "
+        "complete up to the Period end or the end of the source, and $Time$=t_j delivers segment i0+j with "
+        "decode time t_j and the bytes of $Number$=sn+j (mps_timeline_lists_admitted, mps_timeline_gapless, "
+        "mps_timeline_complete, mps_timeline_empty_past_media, mps_time_maps, mps_time_equals_number); Period "
+        "starts/durations/mediaPresentationDuration are whole milliseconds, so the xs:duration text is exact "
+        "(vod_periods_whole_ms, live_periods_whole_ms); every number the Period duration admits is served iff "
         "duration*ts <= (n-i0)*sd*10^6 (mps_admitted_partial / mps_admitted_tight / mps_admitted_of_fits). The "
         "hand-written model is tied to the code on every run by differential correspondence against the booted "
         "Flask app (captured template context of real manifests, served bytes of real /mps/ media requests)."),
@@ -48,12 +53,15 @@ MANIFEST_ENTRY = {
         "decide-d; the manifest handler now answers 404 first, fix a1efbe1), loop count nl*D <= F (the float "
         "floor-division of the builder is a model parameter; the driver evaluates CPython's float // exactly "
         "and correspondence checks it, incl. 0.3//0.1-style edges), hfit for admitted numbers (excluded point "
-        "decide-d and replayed on the app: open ledger entry D22). Float step "
+        "decide-d and replayed on the app: open ledger entry D22, per-track condition, mitigated at data entry "
+        "by 4cad9aa), C02's H1/H2 (segments start inside the reference loop, no empty segment) for the $Time$/"
+        "timeline theorems. Float step "
         "period.start.total_seconds()*timescale is a parameter evaluated with IEEE doubles in the driver; the "
         "int/int rescale is modelled as the exact floor (valid below 2^53). Not modelled (end-to-end oracle "
-        "only): init segments, payload bytes (C03), what create_period puts inside a Period, XML text (ms "
-        "resolution of xs:duration: ledger D23), SegmentTimeline inside a Period (timeline=1: ledger D21). Four "
-        "defects fixed in /repo (65ece2e, 9437abb, 7f6dd57; a1efbe1 by c16). Trusted: Lean kernel, harness, "
+        "only): init segments, payload bytes (C03), what else create_period puts inside a Period, the XML text "
+        "itself (C19; values are whole ms), the missing @duration of the last live Period with timeline=1. "
+        "Defects fixed in /repo: 65ece2e, 9437abb, 7f6dd57, 983f9d5 (D23), 488ab59 (D21), 4cad9aa (D22 "
+        "mitigation); a1efbe1 and 3d7a0df by c16. Trusted: Lean kernel, harness, "
         "driver (incl. its Float steps), mp4walk/segwalk, shims."),
     "technique": "Lean 4 proof (loop-as-walk over the global period sequence, least-index characterisation of get_segment_index) + model/implementation correspondence on the booted app",
 }
@@ -68,9 +76,10 @@ TRUSTED = [
 ]
 ASSUMPTIONS = [
     "generated definitions (mps_e2e, mps_offsets oracle) stay inside the proved hypotheses: total duration > 0, every "
-    "selected track's source offset selects a stored segment, duration*ts <= (n-i0)*sd*10^6 per track, whole-millisecond "
-    "durations (xs:duration text is exact), $Number$ addressing (timeline off), manifest hand_made.mpd (the only "
-    "multi-period template)",
+    "selected track's source offset selects a stored segment, duration*ts <= (n-i0)*sd*10^6 per track (presentation "
+    "duration = stored duration rounded to ms), $Number$ and SegmentTimeline/$Time$ addressing, manifest hand_made.mpd "
+    "(the only multi-period template)",
+    "stored tracks satisfy C02's H1/H2: every segment starts inside the timing-reference duration and has a positive duration",
     "stored tracks have first decode time 0 and tfdt = sum of earlier durations (all fixture and synthetic tracks)",
     "firstAvailableTime < 2^53 us and offset*timescale < 2^53 (float steps exact / as evaluated by the driver)",
     "Period pids are unique within a stream (DB constraint single_period_id_per_mp_stream)",
